@@ -268,22 +268,55 @@ def run(repo, rep):
     rep.check(all("uuid" in v or ".value_id" in v for _, v in vid) and vid, "C08-g", "ethosu/vela/tensor.py", "value_id is a fresh uuid or copied from another tensor with the same values", str(vid))
     # a rewrite that changes a weight tensor's values in place must give it a new value_id unconditionally (reader clones of one
     # constant share the id, and the id is the cache key): the refresh sits in the same block as the mutation
-    gopt = repo.mod("tflite_graph_optimiser")
-    fs = gopt.func("fixup_strided_conv")
+    # Generalised: every graph rewrite that replaces the values of an operator's *existing* weight tensor (not one it has just
+    # created) in a way that depends on operator attributes (stride, dilation, padding ... - two operators sharing one constant may
+    # differ in them) refreshes the id in the block that does the rewrite. Rewrites that are a function of the tensor and of shapes
+    # it determines are listed with their reason.
+    TENSOR_ONLY = {
+        ("graph_optimiser_util", "convert_depthwise_to_conv"): "depth_multiplier = weight channels // IFM channels with IFM depth 1: determined by the tensor's own shape",
+    }
+    ATTR_READS = ("op.attrs", "op.get_kernel_dilation", "op.get_kernel_stride", "op.kernel.stride", "op.kernel.dilation")
     n_ref = 0
-    for blk_owner in ast.walk(fs):
-        for fld in ("body", "orelse"):
-            blk = getattr(blk_owner, fld, None)
-            if not (isinstance(blk, list) and blk and isinstance(blk[0], ast.stmt)):
-                continue
-            muts = [s_ for s_ in blk if isinstance(s_, ast.Assign) and norm(s_.targets[0]).endswith("weight_tensor.values")]
-            if not muts:
-                continue
-            refresh = [s_ for s_ in blk if isinstance(s_, ast.Assign) and norm(s_.targets[0]) == "weight_tensor.value_id" and "uuid" in norm(s_.value)]
-            n_ref += 1
-            rep.check(bool(refresh), "C08-g", "ethosu/vela/tflite_graph_optimiser.py:fixup_strided_conv", "the in-place reshape / padding of the filter is followed, in the same block, by a fresh value_id",
-                      "the refresh is missing or conditional: the rewritten filter keeps the id of the untouched clones of the same constant, and another convolution gets its cached stream")
-    rep.check(n_ref >= 1, "C08-g", "ethosu/vela/tflite_graph_optimiser.py:fixup_strided_conv", "in-place filter rewrite found", str(n_ref))
+    for mname in ("tflite_graph_optimiser", "graph_optimiser_util"):
+        gm = repo.mod(mname)
+        for q, fn in gm.functions.items():
+            fresh = set()
+            alias = set()
+            for st in ast.walk(fn):
+                if isinstance(st, ast.Assign) and len(st.targets) == 1 and isinstance(st.targets[0], ast.Name):
+                    v = st.value
+                    if isinstance(v, ast.Call) and (call_name(v) or "").split(".")[-1] in ("create_const_tensor", "clone", "Tensor", "clone_into_shram", "create_reshape_tensor"):
+                        fresh.add(st.targets[0].id)
+                    elif str(norm(v)) in ("op.inputs[1]", "op.weights"):
+                        alias.add(st.targets[0].id)
+            reads_attr = sorted({a for a in ATTR_READS if any(str(norm(x)).startswith(a) for x in ast.walk(fn) if isinstance(x, (ast.Attribute, ast.Call, ast.Subscript)) and isinstance(getattr(x, "ctx", ast.Load()), ast.Load))})
+            for blk_owner in ast.walk(fn):
+                for fld in ("body", "orelse"):
+                    blk = getattr(blk_owner, fld, None)
+                    if not (isinstance(blk, list) and blk and isinstance(blk[0], ast.stmt)):
+                        continue
+                    muts = [s_ for s_ in blk if isinstance(s_, ast.Assign) and isinstance(s_.targets[0], ast.Attribute) and s_.targets[0].attr == "values"
+                            and (str(norm(s_.targets[0].value)) in ("op.weights", "op.inputs[1]") or (isinstance(s_.targets[0].value, ast.Name) and s_.targets[0].value.id in alias and s_.targets[0].value.id not in fresh))]
+                    if not muts:
+                        continue
+                    # a tensor created by this function and then attached as op.weights is not an existing tensor
+                    if any(isinstance(c_, ast.Call) and (call_name(c_) or "").endswith("create_const_tensor") for c_ in ast.walk(fn)) and str(norm(muts[0].targets[0].value)) in ("op.weights", "op.inputs[1]") \
+                            and any(isinstance(c_, ast.Call) and (call_name(c_) or "").endswith("add_input_tensor") for c_ in ast.walk(fn)):
+                        continue
+                    base = str(norm(muts[0].targets[0].value))
+                    refresh = [s_ for s_ in blk if isinstance(s_, ast.Assign) and str(norm(s_.targets[0])) == f"{base}.value_id" and "uuid" in str(norm(s_.value))]
+                    n_ref += 1
+                    site = f"ethosu/vela/{mname}.py:{q}"
+                    if (mname, q) in TENSOR_ONLY:
+                        rep.ok("C08-g", site, f"in-place rewrite of {base}.values", "function of the tensor alone: " + TENSOR_ONLY[(mname, q)])
+                    elif not reads_attr:
+                        rep.ok("C08-g", site, f"in-place rewrite of {base}.values does not depend on operator attributes", "")
+                    else:
+                        rep.check(bool(refresh), "C08-g", site, f"the attribute-dependent in-place rewrite of {base}.values is followed, in the same block, by a fresh value_id",
+                                  f"the rewrite depends on {reads_attr} and the refresh is missing or conditional: the rewritten filter keeps the id of the untouched clones of the same "
+                                  "constant, so another operator sharing the constant (same cache key after the rewrite) gets this operator's stream or vice versa")
+    if n_ref < 5:
+        raise AnalysisError(f"in-place weight rewrites: only {n_ref} found")
     rep.floor("C08-g", 14)
 
     rep.clause("C08-k", "the weight stream is produced in hardware order and the scale records with the reference's casting rule: sub-kernel decomposition uses the dilation of its own axis [rule shared with C07-f]; the float32 / double product rule is selected on the operator's original type [rule shared with C09-b]")
